@@ -1282,6 +1282,8 @@ register(PropertySpec(
              "the building functions pass the conditions they are given on to the function that builds the query, in every arm"),
         Rule("RETRIEVE-ALL-BRANCHES", _lazy("cacheidx", "rule_retrieve_bound_branches"), 2,
              "(shared with C20) a lookup that binds a key follows the entry stored for that value and the entry that leaves the key open: otherwise a row is lost on a cache hit, depending on the order in which the variables were declared"),
+        Rule("FORALL-KEY", _lazy("forall", "rule_forall_key"), 2,
+             "(shared with C10) what for_all asks of its condition depends only on who asks: an or_ nested below an and_ inside the condition keeps the universal variable in its key, whichever operand order"),
     ],
     explanation="Two of the six listed rewrites are decided: mirrored comparisons and contains/in_, by the OPDEN "
                 "denotation rule (C01). Commutativity/associativity of and/or, declaration/selection order and domain "
